@@ -238,6 +238,87 @@ def rule_r3(ctx):
     return rr
 
 
+MIN_ID_SPACE = 10 ** 9
+
+
+def _id_space(prog, fi):
+    """Number of distinct results of the fresh-suffix generator, from its source (None: not recognised)."""
+    mi = fi.module
+
+    def const(n):
+        try:
+            return prog.eval_const(mi, n) if n is not None else None
+        except Exception:
+            return None
+
+    for n in ast.walk(fi.node):
+        if not isinstance(n, ast.Call):
+            continue
+        f = n.func
+        name = f.attr if isinstance(f, ast.Attribute) else (f.id if isinstance(f, ast.Name) else None)
+        if name == "choices" and n.args:
+            pop = const(n.args[0])
+            k = None
+            for kw in n.keywords:
+                if kw.arg == "k":
+                    k = const(kw.value)
+            if isinstance(pop, (str, list, tuple)) and isinstance(k, int):
+                return len(set(pop)) ** k, f"random.choices over {len(set(pop))} symbols, k={k}"
+        if name in ("choice", "sample") and n.args:
+            pop = const(n.args[0])
+            # "".join(random.choice(S) for _ in range(K))
+            for g in ast.walk(fi.node):
+                if isinstance(g, (ast.GeneratorExp, ast.ListComp)) and any(x is n for x in ast.walk(g)):
+                    it = g.generators[0].iter
+                    if isinstance(it, ast.Call) and isinstance(it.func, ast.Name) and it.func.id == "range" and it.args:
+                        k = const(it.args[-1])
+                        if isinstance(pop, (str, list, tuple)) and isinstance(k, int):
+                            return len(set(pop)) ** k, f"random.choice over {len(set(pop))} symbols, {k} times"
+            if name == "sample" and len(n.args) > 1:
+                k = const(n.args[1])
+                if isinstance(pop, (str, list, tuple)) and isinstance(k, int):
+                    import math
+
+                    return math.perm(len(set(pop)), k), f"random.sample of {k} out of {len(set(pop))}"
+        if name == "getrandbits" and n.args and isinstance(const(n.args[0]), int):
+            return 2 ** const(n.args[0]), f"getrandbits({const(n.args[0])})"
+        if name in ("token_hex", "token_bytes", "token_urlsafe"):
+            k = const(n.args[0]) if n.args else 32
+            if isinstance(k, int):
+                return 256 ** k, f"secrets.{name}({k})"
+        if name in ("uuid4", "uuid1"):
+            return 2 ** 122, "uuid"
+        if name in ("randrange", "randint") and n.args and all(isinstance(const(a), int) for a in n.args):
+            vals = [const(a) for a in n.args]
+            return (vals[-1] - (vals[0] if len(vals) > 1 else 0)) or 1, f"random.{name}{tuple(vals)}"
+    return None
+
+
+def rule_r4(ctx):
+    """Freshness of the temporaries is probabilistic: it rests on the size of the suffix space."""
+    rr = RuleResult("C09-R4", f"the random suffix of fresh names is drawn from at least {MIN_ID_SPACE:.0e} values")
+    rr.floor = 1
+    prog = ctx.prog
+    fi = prog.func("oneliner.utils", "unique_id")
+    if fi is None:
+        raise AnalysisError("anchor oneliner.utils:unique_id vanished")
+    rr.instances += 1
+    sp = _id_space(prog, fi)
+    if sp is None:
+        raise AnalysisError(f"C09-R4: cannot evaluate the size of the suffix space of {fi.where()}")
+    n, how = sp
+    what = "unique_id|space"
+    if n < MIN_ID_SPACE:
+        rr.fail(
+            "C09-R4|unique_id|suffix-space",
+            f"{fi.where()}: fresh names take their suffix from only {n} values ({how}); a script with a few hundred temporaries of one kind (every assignment, loop and function makes some) gets two equal names with noticeable probability, and equal names in nested scopes clobber each other",
+            where=fi.where(), what=what,
+        )
+    else:
+        rr.ok(what, sample={"rule": "C09-R4", "generator": how, "space": f"{n:.3e}"})
+    return rr
+
+
 def rule_bootstrap(ctx):
     """The un-suffixed helper globals itertools / importlib / __ol_iter_wrapper must be bound by
     the output itself, unconditionally at its head (rule C14-R5): relying on a user binding of the
@@ -247,4 +328,4 @@ def rule_bootstrap(ctx):
     return rule_r5(ctx)
 
 
-RULES = [("C09-R1", rule_r1), ("C09-R2", rule_r2), ("C09-R3", rule_r3), ("C14-R5", rule_bootstrap)]
+RULES = [("C09-R1", rule_r1), ("C09-R2", rule_r2), ("C09-R3", rule_r3), ("C09-R4", rule_r4), ("C14-R5", rule_bootstrap)]
